@@ -231,7 +231,16 @@ def annotate_fn(R, fn_lines, ann, name):
             inserts.append((end, "before", spec["body_end"]))
         if spec.get("after"):
             inserts.append((end, "after", spec["after"]))
+    ins_list = []
     for ins in ann.get("inserts", []):
+        if ins.get("nth") == "all":
+            hits = [k for k, l in enumerate(body) if re.search(ins["at"], l)]
+            if not hits:
+                raise LostAnchor(f"anchor {name}:{ins['at']!r} not found")
+            ins_list += [dict(ins, nth=k + 1) for k in range(len(hits))]
+        else:
+            ins_list.append(ins)
+    for ins in ins_list:
         i = find_line(body, ins["at"], ins.get("nth", 1), f"{name}:{ins['at']}")
         # Ghost `let` bindings must stay in scope for the rest of the loop body.  If an edit has wrapped the
         # anchor statement in a new block (e.g. `if c { visited.insert(node); }`), splice after that block
